@@ -37,6 +37,12 @@ What is enumerated
 The oracle (levels, expected partial trees, expected completion) is computed from the abstract shape only;
 nothing from eliot.testing or eliot's own tests is used.
 
+Tiers (the "bound" key states the scope actually run; if the time budget cuts a run short, it says what was cut):
+  quick     single task: <= 5 messages x full decoration product, 6 messages x 2 decorations; pairs <= 6 and triples <= 5
+            messages in total; seeded samples at 7 and 8 messages.                      (~135 k scenarios, 16 processes)
+  thorough  single task: <= 6 messages x full decoration product, 7 messages x 4 and 8 messages x 1 decorations (nesting
+            depth <= 4); pairs <= 7 and triples <= 6 messages in total; seeded samples at 9 and 10 messages.  (~9.1 M scenarios)
+
 Prints one JSON line: {cases, distinct, failures, known, bound, rule}.
 
 KNOWN_ON_UNCHANGED_TREE
@@ -768,11 +774,12 @@ def describe_bound(P, skipped, units):
          "remote sub-tasks) x the full product of per-action decorations {local | remote via serialize_task_id+continue_task} x {named | default empty action_type} x {succeeded | failed}; "
          "(b) every task structure with %d..%d messages (nesting depth <= %d) x a covering set of decorations (%s per structure, taken in order from: plain local+named+succeeded, all remote+unnamed+failed, two alternating mixes; a single one is drawn at random from the seed); "
          "(c) every unordered pair of task structures with <= %d messages in total (%d decoration assignments each) and every unordered triple with <= %d messages in total: all interleavings of all orders of all subsets of the union. "
-         "SEEDED SAMPLE beyond that: task structures with %s messages, %d random full arrival orders each, every prefix checked. "
+         "SEEDED SAMPLE beyond that: task structures with %s messages (%s, one seeded decoration each), %d random full arrival orders each, every prefix checked. "
          "parse_stream: every subset in one seeded order, plus all orders of the full set up to 5 messages and 40 seeded orders above."
          % (P["full_deco_upto"], P["full_deco_upto"] + 1, P["cover_upto"], maxdepth,
             ", ".join("%d at %d messages" % (P["cover_k"][n], n) for n in range(P["full_deco_upto"] + 1, P["cover_upto"] + 1)),
-            P["pair_total"], P["pair_k"], P["triple_total"], " and ".join(map(str, P["sample_sizes"])), P["sample_k"]))
+            P["pair_total"], P["pair_k"], P["triple_total"], " and ".join(map(str, P["sample_sizes"])),
+            "all structures" if not P["sample_structs"] else "all structures of a size, or a seeded choice of %d of them where there are more" % P["sample_structs"], P["sample_k"]))
     if skipped:
         cats = {}
         for u, sk in zip(units, skipped):
